@@ -50,6 +50,15 @@ pub fn flags(src: &str) -> Option<Vec<Flag>> {
                 // lhs of an unused `a <op> b` as unused): only used to NAME the finding class
                 let next = src[e..].trim_start_matches([' ', ')']).chars().next();
                 let kind = if next.is_some_and(|c| "*/+-|&=!<>?".contains(c)) { "operand" } else { kind };
+                // … or follows, in the same container, a call with a closure (the checker leaves the
+                // level "not expecting a result" after visiting the closure block)
+                let before = src[..s].trim_end();
+                let line_start = before.rfind('\n').map_or(0, |i| i + 1);
+                let kind = if before.ends_with(',') && before[..before.len() - 1].trim_end().ends_with('}') && before[line_start..].contains("-> |") {
+                    "after_closure"
+                } else {
+                    kind
+                };
                 out.push(Flag { start: s, end: e, kind });
             }
         }
@@ -216,6 +225,17 @@ const JUNK: &[&str] = &[
     "set_semantic_meaning(.a, \"m\")",
     "match(\"a\", r'a')",
     "\"t {{ x }}\"",
+    // USED values built from literals, objects, operations and calls: nothing in them may be flagged
+    ".zq = [{\"k\": 1}, 5]",
+    ".zr = [.a == 1, \"always\"]",
+    "x = [{\"a\": 1}, upcase(\"b\"), {\"c\": 2}]",
+    ".zp = { \"o\": {\"k\": 1}, \"l\": 5 }",
+    "y = [[{\"k\": 1}], 7, 1 + 2, \"s\"]",
+    ".zo = [1, {\"k\": 2}, [3], !true, -1]",
+    ".zn = [map_values({\"k\": 1}) -> |v| { v }, 5]",
+    ".zm = [if .a == 1 { 1 } else { 2 }, 9]",
+    "z = { \"a\": [{\"b\": 1}, 2], \"c\": (1 == 1) }",
+    ".zl = [to_string(.a) ?? \"d\", \"e\"]",
 ];
 
 pub fn generate(sink: &mut Sink, rng: &mut Rng, n: u64) {
